@@ -25,6 +25,24 @@ def startup_obligation():
         expect_witnesses=["second_daemon_refused", "spawner_missing", "started_with_clamped_concurrency"])
 
 
+def signals_obligation(tier="quick"):
+    """HUP / ALRM are never forgotten by the main loop (C10 reread, C15 pqrun); used by harness/C10 and harness/C15 as well"""
+    return Obl("signal_flags", "../C16/wake.c",
+        progs=[Prog("qmail-send.c", main_as="send_main", cut=CUT)], repo=UNITS, lib=["arena_stralloc.c"],
+        defines={"ARENA_CAP": 64, "ARENA_SLOTS": 8, "MODE": 3, "NINJ": 1}, sysrename=SYS,
+        grid=[{"K": 3}] if tier == "quick" else [{"K": 3}, {"K": 4}],
+        functions=["qmail-send.c:main (signal flags)", "qmail-send.c:sighup", "qmail-send.c:sigalrm"],
+        unwind=lambda p: {"send_main~while (!flagexitasap": p["K"] + 3}, unwind_default=20, timeout=900,
+        cuts=["reread, pqrun -> observers that may receive a further HUP / ALRM while running (their bodies: C10 regetcontrols, C03/C15 pqrun)",
+              "all other subsystems -> no-ops"],
+        stubs=["select: a HUP and/or ALRM may arrive while sleeping (the real handlers run, select fails with EINTR)"],
+        assumes=["signals arrive inside select(), reread() or pqrun() only; K select() calls"],
+        outside=["a signal that arrives between the flag test and select() is served only after that select() returns (accepted by the design)"],
+        claim="every HUP (ALRM) is followed by a reread() (pqrun()) that starts after it arrived, at the latest after one more select(): "
+              "the flag is cleared before the work starts, never after it",
+        expect_witnesses=["signals_bound_reached", "hup_during_reread", "alrm_during_pqrun"])
+
+
 def obligations(tier):
     common = dict(progs=[Prog("qmail-send.c", main_as="send_main", cut=CUT)], repo=UNITS, lib=["arena_stralloc.c"],
                   defines={"ARENA_CAP": 64, "ARENA_SLOTS": 8}, sysrename=SYS, functions=FUNCS,
@@ -56,4 +74,5 @@ def obligations(tier):
                   "<= earliest-due - now + SLEEP_FUZZ",
             expect_witnesses=["polls_when_due", "sleeps_until_due", "sleeps_while_draining"],
             **{k: v for k, v in common.items() if k != "defines"}),
+        signals_obligation(tier),
     ]
